@@ -3,9 +3,11 @@
 Everything happens under SCRATCH/<run>/ROOT.  The head directory sits DEPTH levels below ROOT so that a name with up
 to DEPTH-1 '..' segments still lands inside ROOT (and ROOT is removed after every case).
 
-case = (name, base, temp, clean, filed, extensioned, fext, pre, steps)
+case = (name, base, temp, clean, filed, extensioned, fext, pre, steps[, entry])
+  entry = None (plain constructor) | ("ctx", clear): `with openFiler(cls, name=..., temp=..., clear=clear, ...)` around the steps
   pre   = [(relative path below HEAD, 'd' | 'f'), ...]  created before the Filer (non-temp only)
-  steps = [("reopen", clear, reuse, clean[, temp None|bool[, fext None|str]]) | ("close", clear), ...]  applied after the constructor
+  steps = [("reopen", clear, reuse, clean[, temp None|bool[, fext None|str]]) | ("close", clear) | ("doer",), ...]  applied after the constructor
+          ("doer",) = a FilerDoer for the filer run to its time limit by a non-real-time Doist
 """
 import itertools
 import os
@@ -28,7 +30,8 @@ class Sandbox:
         self.head = os.path.join(deep, "head")
         self.temphead = os.path.join(deep, "tmp")
         self.alt = os.path.join(deep, "alt")
-        for d in (self.head, self.temphead, self.alt):
+        self.home = os.path.join(deep, "home")      # $HOME while the Filer runs: an expansion of '~' lands here, visibly
+        for d in (self.head, self.temphead, self.alt, self.home):
             os.makedirs(d)
         p = self.root
         for s in [None] + CHAIN:          # a sentinel file at every level: deleting one is always wrong
@@ -77,8 +80,8 @@ TEMPSEGS = tuple(s.encode() for s in CHAIN + ["tmp"])
 
 # ---------------------------------------------------------------- generators
 DOTTED = ["..", ".", "", "a", ".h", "a.b"]
-SEGS = ["a", "b", "x.y", ".h", "..", ".", "", "a.", "...", "..b", "c.text", "é", "d.d", "a b"]
-BASES = ["", "", "", "b", "b/c", "..", "b/..", "../..", ".", "b/", "../b", "../../..", "x.y"]
+SEGS = ["a", "b", "x.y", ".h", "..", ".", "", "a.", "...", "..b", "c.text", "é", "d.d", "a b", "~", "~", "~nosuchuser9", "$HOME", "~.x"]
+BASES = ["", "", "", "b", "b/c", "..", "b/..", "../..", ".", "b/", "../b", "../../..", "x.y", "~", "~/b", "b/~", "~nosuchuser9/b"]
 
 
 def gen_climb(rng):
@@ -117,9 +120,26 @@ def gen_steps(rng):
         return []
     steps = []
     for _ in range(rng.choice([0, 0, 0, 1, 1, 2])):
-        steps.append(gen_reopen(rng, rng.random() < 0.4))
+        steps.append(gen_reopen(rng, rng.random() < 0.4) if rng.random() < 0.8 else ("doer",))
     steps.append(("close", rng.random() < 0.8))
     return steps
+
+
+def gen_entry(rng, steps):
+    """a third of the cases live in an openFiler context; there the block often ends with the filer already closed"""
+    if rng.random() < 0.65:
+        return None, steps
+    steps = [s for s in steps]
+    r = rng.random()
+    if r < 0.35 and steps and steps[-1][0] == "close":
+        steps[-1] = ("close", False)                      # plain close inside the block
+    elif r < 0.55:
+        steps = steps[:-1] if steps and steps[-1][0] == "close" else steps      # block leaves it open
+    elif r < 0.75:
+        steps = [st for st in steps if st[0] != "close"] + [("doer",)]
+    elif r < 0.9:
+        steps = [("close", False), ("reopen", False, True, False, None, None), ("close", False)]
+    return ("ctx", rng.random() < 0.5), steps
 
 
 def gen_reopen(rng, clean):
@@ -166,7 +186,8 @@ def gen_case(rng):
     extensioned = rng.random() < 0.4
     fext = rng.choice(["text", "text", "text", "db", "t.x"])
     pre = [] if temp else gen_pre(rng, name, base, clean, filed, extensioned, fext)
-    return (name, base, temp, clean, filed, extensioned, fext, pre, gen_steps(rng))
+    entry, steps = gen_entry(rng, gen_steps(rng))
+    return (name, base, temp, clean, filed, extensioned, fext, pre, steps, entry)
 
 
 def gen_revisit(rng):
@@ -210,7 +231,8 @@ def gen_revisit(rng):
         steps.append(gen_reopen(rng, clean if rng.random() < 0.85 else not clean))
     if rng.random() < 0.9:
         steps.append(("close", rng.random() < 0.75))
-    return (name, base, temp, clean, filed, ext, fext, pre, steps)
+    entry, steps = gen_entry(rng, steps)
+    return (name, base, temp, clean, filed, ext, fext, pre, steps, entry)
 
 
 def exhaustive_cases():
